@@ -143,6 +143,29 @@ def run(ctx, res):
         res.evaluations += 1
         if not family.same(a, b):
             res.violations.append({'key': None, 'sig': 'library', 'what': 'materialize_set differs between number_of_processes=1 and 4', 'replay': {'case': small}})
+    # ONE hierarchical file read by two triples maps through different iterators (same reference names, different mapping groups), the file named *.geojson
+    # or by an unknown extension with the reference formulation: whatever a process remembers about a file must not leak from one group to the other
+    def tmh(k, v, ck='iri', tt=''):
+        return {'k': k, 'v': v, 'ck': ck, 'tt': tt}
+    hbatch = family.Batch(ctx)
+    for hi in range(ctx.scale(4, 16)):
+        fn = ['m_shared.geojson', 'm_shared.data', 'm_shared.jsonpath', 'm_shared.json'][hi % 4]
+        srcs = [{'key': 'S%d' % j, 'kind': 'json', 'shared_file': fn, 'part': part, 'cols': ['id', 'v'],
+                 'rows': [[part + str(i + 1), '%s%d' % (part, (i * 7 + hi) % 5)] for i in range(2 + (hi + j) % 3)]} for j, part in enumerate(['a', 'b'])]
+        hdoc = [{'id': mapcase.EX + 'tm/H%d' % j, 'src': 'S%d' % j, 'nonasserted': False, 'subj': tmh('templ', mapcase.EX + part + '/{id}'), 'sjoins': [], 'classes': [], 'sgraphs': [],
+                 'poms': [{'preds': [tmh('const', mapcase.EX + 'p/' + part)], 'objs': [{'m': tmh('ref', 'v', 'lit'), 'lang': None, 'dt': None, 'joins': []}], 'graphs': []}]} for j, part in enumerate(['a', 'b'])]
+        hcase = {'cfg': {'nquads': hi % 2 == 1, 'mode': ['PARTIAL-AGGREGATIONS', 'MAXIMAL'][hi % 2]}, 'sources': srcs, 'doc': hdoc}
+        rec1 = hbatch.run([hcase], cfg_override={'procs': 1})[0]
+        rec4 = hbatch.run([hcase], want_spec=False, cfg_override={'procs': 4})[0]
+        res.evaluations += 2
+        res.count('shared-hierarchical-file')
+        res.distinct.add(('shared-file', hi))
+        if not family.same(rec1['impl'], rec4['impl']):
+            res.violations.append({'key': None, 'sig': 'library:shared-file', 'what': 'two triples maps over one JSON file (%s) with different iterators: materialize_set differs between number_of_processes=1 (%s) and 4 (%s)'
+                                   % (fn, str(rec1['impl'])[:160], str(rec4['impl'])[:160]), 'replay': {'case': hcase}})
+        elif rec1.get('spec') and not family.same(rec1['impl'], rec1['spec']):
+            res.violations.append({'key': None, 'sig': 'shared-file:spec', 'what': 'two triples maps over one JSON file (%s) with different iterators: the result %s is not what the generation rules give %s'
+                                   % (fn, str(rec1['impl'])[:160], str(rec1['spec'])[:160]), 'replay': {'case': hcase}})
     # a user-defined function with module-level state, used by several mapping groups: the result must not depend on how the groups
     # are spread over processes
     EXN = mapcase.EX
